@@ -227,6 +227,20 @@ pub fn gen_tree(rng: &mut Rng, sink: &mut Sink, vocab: &Vocab) -> (GTree, Domain
             sink.stat("gen.prefix-bound-to-xml-namespace");
         }
     }
+    if rng.chance(1, 12) {
+        // a text node with EMPTY character data (new_text(""), Text::set("")): it has its own event and,
+        // under a CDATA-section element, its own `<![CDATA[]]>` (seed C16j); outside the round-trip domain
+        let holders: Vec<Vec<usize>> = t.paths().into_iter().filter(|p| matches!(t.at(p).unwrap().v, GValue::Element(_))).collect();
+        if !holders.is_empty() {
+            let p = rng.pick(&holders).clone();
+            let h: &mut GTree = node_at_mut(&mut t, &p);
+            let first = h.kids.iter().position(|k| k.is_normal()).unwrap_or(h.kids.len());
+            let at = first + rng.below(h.kids.len() - first + 1);
+            h.kids.insert(at, GTree::leaf(GValue::Text(String::new())));
+            representable = false;
+            sink.stat("gen.empty-text-node");
+        }
+    }
     let mut domain = if representable { Domain::Representable } else { Domain::Outside };
     if representable && rng.chance(1, 8) {
         // one step outside the round-trip domain, with a precise expectation
